@@ -5,5 +5,6 @@ CONSTANTS
   Workers = 2
   Size <- SizeSmall
   StartInJob = TRUE
+  DestroyWaits = TRUE
 INVARIANTS NoUseAfterDestroy
 CHECK_DEADLOCK FALSE
